@@ -227,8 +227,52 @@ impl<'r> Gen<'r> {
         } else {
             self.t += *self.rng.pick(&[200, 999, 1000, 1001, 3000, 9999, 10000, 10001, 60000]);
         }
-        let b = if self.rng.chance(1, 30) { self.rng.below(3).to_string() } else { "-".into() };
+        let b = if self.rng.chance(1, 10) { self.rng.pick(&[0u64, 0, 1, 2]).to_string() } else { "-".into() };
         self.ev(format!("poll t={} b={}", self.t, b));
+    }
+    /// device back-pressure: a poll at the current time (or at the pending deadline) whose frame the
+    /// device refuses (b=0) or of which it takes only one (b=1), usually followed by an unlimited one
+    fn poll_refused(&mut self, at_deadline: bool) {
+        if at_deadline && !self.sim.dead {
+            let now = Instant::from_millis(self.t);
+            if let Some(d) = self.sim.iface.poll_at(now, &self.sim.sockets) {
+                let ms = (d.total_micros() + 999) / 1000;
+                if ms > self.t {
+                    self.t = ms;
+                }
+            }
+        }
+        let b = *self.rng.pick(&[0u64, 0, 0, 1]);
+        self.ev(format!("poll t={} b={}", self.t, b));
+        if self.rng.chance(1, 3) {
+            self.ev(format!("poll t={} b=0", self.t));
+        }
+        if self.rng.chance(3, 4) {
+            self.ev(format!("poll t={} b=-", self.t));
+        }
+    }
+    /// data in flight, a fresh ACK of part of it, then duplicate ACKs: fast retransmit (often into a busy device)
+    fn dup_ack_burst(&mut self) {
+        let n = *self.rng.pick(&[600usize, 1500, 3000, 5000]);
+        self.ev(format!("send {}", n));
+        self.ev(format!("poll t={} b=-", self.t));
+        if let (Some(nxt), Some(una)) = (self.s_nxt, self.last_ack_sent.or(self.s_iss.map(|i| wadd(i, 1)))) {
+            let span = sdiff(nxt, una);
+            if span > 1 {
+                let a = wadd(una, self.rng.range(0, span - 1));
+                let w = self.p_win;
+                let seq = self.p_seq(self.p_off);
+                let k = *self.rng.pick(&[2i64, 3, 3, 3, 4, 5]);
+                for _ in 0..=k {
+                    self.seg(seq, Some(a), "", w, 0, "0".into(), Gen::plain_opts());
+                }
+                if self.rng.chance(2, 3) {
+                    self.poll_refused(false);
+                } else {
+                    self.poll();
+                }
+            }
+        }
     }
     fn new_peer(&mut self) {
         self.p_isn = match self.rng.below(10) {
@@ -293,8 +337,43 @@ impl<'r> Gen<'r> {
             if self.rng.chance(1, 8) {
                 return;
             }
+            // relisten: the peer resets the half-open connection (back to LISTEN) and a new incarnation
+            // (fresh peer ISN and options) connects; per-incarnation state must not leak
+            let mut relisten = 0;
+            while self.conn_budget > 0 && relisten < 2 && self.rng.chance(1, 5) {
+                relisten += 1;
+                self.conn_budget -= 1;
+                if self.rng.chance(1, 2) {
+                    self.t += *self.rng.pick(&[0i64, 1, 1000, 3000]);
+                    self.poll();
+                }
+                let a = if self.rng.chance(1, 2) { None } else { self.s_iss.map(|i| wadd(i, 1)) };
+                self.seg(wadd(self.p_isn, 1 + len as i64), a, "R", w, 0, "0".into(), Gen::plain_opts());
+                self.new_peer();
+                let o = self.syn_opts();
+                let w = self.p_win;
+                self.seg(self.p_isn, None, "S", w, 0, "0".into(), &o);
+                self.poll();
+            }
+            let w = self.p_win;
             let ack = self.s_iss.map(|i| wadd(i, 1 + self.pert()));
             self.seg(wadd(self.p_isn, 1), ack, "", w, 0, "0".into(), Gen::plain_opts());
+            if relisten > 0 {
+                // data both ways and a keep-alive in the new incarnation
+                let l = self.rng.range(1, 100) as usize;
+                let seq = self.p_seq(self.p_off);
+                let po = self.p_off.to_string();
+                self.seg(seq, ack, "", w, l, po, Gen::plain_opts());
+                self.p_off += l as i64;
+                self.poll();
+                let n = self.rng.range(1, 600);
+                self.ev(format!("send {}", n));
+                self.poll();
+                let ka = *self.rng.pick(&[1i64, 50, 1000]);
+                self.ev(format!("set keepalive={}", ka));
+                self.t += *self.rng.pick(&[1i64, 50, 1000, 1001]);
+                self.ev(format!("poll t={} b=-", self.t));
+            }
         } else {
             // simultaneous open, SYN crossing
             self.ev(format!("connect rp={} lp={}", self.pp, self.lp));
@@ -421,12 +500,18 @@ impl<'r> Gen<'r> {
                     }
                 }
             }
-            57..=64 => {
+            57..=62 => {
                 // pure ACK of everything seen, window choice
                 let w = self.win_choice();
                 let seq = self.p_seq(self.p_off);
                 self.seg(seq, ack, "", w, 0, "0".into(), Gen::plain_opts());
+                if w == 0 && self.rng.chance(1, 3) {
+                    let n = self.rng.range(1, 600);
+                    self.ev(format!("send {}", n));
+                    self.poll_refused(true); // zero-window probe into a busy device
+                }
             }
+            63..=64 => self.dup_ack_burst(),
             65..=68 => {
                 // duplicate ACKs
                 if let Some(a) = self.last_ack_sent {
@@ -435,6 +520,9 @@ impl<'r> Gen<'r> {
                     let seq = self.p_seq(self.p_off);
                     for _ in 0..n {
                         self.seg(seq, Some(a), "", w, 0, "0".into(), Gen::plain_opts());
+                    }
+                    if n >= 3 && self.rng.chance(1, 2) {
+                        self.poll_refused(false);
                     }
                 }
             }
@@ -496,6 +584,9 @@ impl<'r> Gen<'r> {
             }
             85..=86 => {
                 self.ev("close".into());
+                if self.rng.chance(1, 3) {
+                    self.poll_refused(false); // the FIN meets a busy device
+                }
             }
             87 => {
                 if self.rng.chance(1, 3) {
@@ -555,7 +646,11 @@ impl<'r> Gen<'r> {
             94..=95 => {
                 // time passes
                 self.t += *self.rng.pick(&[1i64, 10, 100, 1000, 5000, 10000, 30000]);
-                self.poll();
+                if self.rng.chance(1, 3) {
+                    self.poll_refused(true); // RTO / probe / keep-alive / TIME-WAIT deadline with a busy device
+                } else {
+                    self.poll();
+                }
             }
             _ => {
                 // data with options / zero-length keep-alive probe (seq = rcv_nxt - 1)
